@@ -3,10 +3,6 @@ Used by tools/props/C10.py (ops 'pf_*'); importable by other plugins that rely o
 import math, struct, sys
 from fractions import Fraction
 
-try:
-    sys.set_int_max_str_digits(0)
-except AttributeError:
-    pass
 
 def _exact_decimal(fr):
     """exact decimal expansion of a non-negative dyadic Fraction"""
@@ -103,8 +99,8 @@ def gen_float_strings(rng, n):
             s = rng.choice('+-') + s
         yield s
 
-def gen_pf_cases(rng, tier):
-    n = 2500 if tier == 'quick' else 60000
+def gen_pf_cases(rng, tier, scale=1.0):
+    n = int((2500 if tier == 'quick' else 60000) * scale)
     for s in gen_float_strings(rng, n):
         yield {'op': 'pf_str', 's': s}
     ints = [0, 1, -1, 2 ** 53, 2 ** 53 + 1, 2 ** 53 + 2, 2 ** 53 + 3, -(2 ** 53 + 1), 2 ** 54 + 2, 2 ** 54 + 6, 2 ** 1024 - 2 ** 970, 2 ** 1024 - 2 ** 970 - 1,
